@@ -94,6 +94,8 @@ type simPeer struct {
 	sentLog   []sentRec // every UPDATE handed to the transport, in order (monitoring-record oracle)
 	sessEnd   map[int]time.Duration // session number -> instant this side saw it end
 	eorSent   map[wFamily]time.Duration // End-of-RIB markers this peer sent on the current session
+	limitHit  bool                      // the model says this session exceeded the configured prefix limit
+	limitTrips int                      // sessions so far that exceeded it
 
 	// hooks for family-specific monitors
 	onMsg func(p *simPeer, m *wMsg)
@@ -378,6 +380,7 @@ func (p *simPeer) sessionUp(b *simConn, open *wOpenMsg) {
 	p.eor = map[wFamily]int{}
 	p.sent = map[viewKey]*annRoute{}
 	p.eorSent = map[wFamily]time.Duration{}
+	p.limitHit = false
 	p.downCh = make(chan struct{})
 	p.kaStop = make(chan struct{})
 	p.downWhy = ""
@@ -890,6 +893,43 @@ func (p *simPeer) announce(r *annRoute) bool {
 			pid = 0
 		}
 		p.sent[viewKey{r.Fam, pid, r.Prefix}] = r
+	}
+	p.mu.Unlock()
+	return true
+}
+
+// announceAndWithdraw sends ONE UPDATE that withdraws wdPrefix (IPv4 unicast, classic encoding) and
+// announces r.  Both changes are recorded if the transport accepted the message.
+func (p *simPeer) announceAndWithdraw(r *annRoute, wdPrefix string, wdPathID uint32) bool {
+	p.mu.Lock()
+	if !p.up {
+		p.mu.Unlock()
+		return false
+	}
+	c := p.conn
+	sess := p.sess
+	wd := p.encodeNLRI(famV4, wdPrefix, wdPathID, 0, "")
+	nl := p.encodeNLRI(famV4, r.Prefix, r.PathID, 0, "")
+	attrs := p.encodeAttrs(r.Spec, r.Tag, famV4, nil, nil)
+	body := append([]byte{byte(len(wd) >> 8), byte(len(wd))}, wd...)
+	body = append(body, byte(len(attrs)>>8), byte(len(attrs)))
+	body = append(body, attrs...)
+	body = append(body, nl...)
+	msg := append(wHeader(wUpdate, len(body)), body...)
+	p.mu.Unlock()
+	r.At = p.w.now() + time.Duration(p.w.sc.Net.LatencyMs)*time.Millisecond
+	if _, err := c.Write(msg); err != nil {
+		return false
+	}
+	p.noteSent(msg)
+	p.mu.Lock()
+	if p.sess == sess && p.up {
+		pid, wpid := r.PathID, wdPathID
+		if !p.enc.AddPath[famV4] {
+			pid, wpid = 0, 0
+		}
+		delete(p.sent, viewKey{famV4, wpid, wdPrefix})
+		p.sent[viewKey{famV4, pid, r.Prefix}] = r
 	}
 	p.mu.Unlock()
 	return true
